@@ -222,21 +222,14 @@ func runC03(c *h.Ctx) {
 		lastTokens = append(lastTokens, &gen.Path{Lax: true, Root: &gen.N{K: gen.KRoot, Next: &gen.N{K: gen.KAny, First: lv[0], Last: lv[1]}}})
 	}
 	rl := c.Rand("c03-last")
-	tails := []string{"", " ", "\n", "\t", "/* c */", " /**/"}
+	tails := []string{"", " ", "\n", "\t", "/* c */", " /**/", "/*/ x */", "\r\n"}
 	for i, t := range lastTokens {
 		if !c.Mine(i) {
 			continue
 		}
 		for rep := 0; rep < 12; rep++ {
-			st := &gen.Style{R: rl, Lexical: true}
-			base := strings.TrimRight(gen.Spell(t, st), " \t\r\n")
-			for strings.HasSuffix(base, "*/") {
-				if j := strings.LastIndex(base, "/*"); j >= 0 {
-					base = strings.TrimRight(base[:j], " \t\r\n")
-				} else {
-					break
-				}
-			}
+			st := &gen.Style{R: rl, Lexical: true, NoTrailingSep: true}
+			base := gen.Spell(t, st)
 			for _, tail := range tails {
 				txt := base + tail
 				c.Distinct(txt)
